@@ -202,6 +202,18 @@ def gen_twin(rng, f, ch, mode, route="vio"):
 
     slot(False, 0)
     L.extend(valid_metadata(rng, f, ch))
+    # an ACCEPTED channel map, then a map of valid ids the container cannot express (round 9: the handler keeps its own mask / tag next
+    # to psf->channel_map; a refusal must leave both alone) -- every container with a command handler, every run; verdicts by Sf.ChmapVerdict
+    if f.major in (0x01, 0x13, 0x22, 0x02, 0x18):
+        from . import chmapfix
+        cands = [chmapfix.MASK_IDS[:ch], [1] * ch, [2, 3, 4, 11, 9, 10, 12, 13][:ch], [2, 3, 9, 10][:ch]]
+        good = next((m for m in cands if len(m) == ch and chmapfix.verdict(f.word, ch, m) == 1), None)
+        bad = next((m for m in ([1] * ch, list(reversed(good or [])), [5] * ch, [26] * ch) if len(m) == ch and chmapfix.verdict(f.word, ch, m) == 0), None)
+        if good is not None and bad is not None:
+            L.append(M.cmd_line("h0", 0x1101, struct.pack("<%di" % ch, *good)))
+            marks[len(L)] = Ins(M.cmd_line("h0", 0x1101, struct.pack("<%di" % ch, *bad)), "cmd", "0", False, "SFC_SET_CHANNEL_MAP_INFO with a map the container cannot express, behind an accepted map")
+            L.append(marks[len(L)].line)
+            L.append("strerror h0")
     slot(False, 1)
     L.append(S.w_line("h0", ty, "f", A, S.rand_values(rng, ty, A * ch, "unit")))
     slot(True, 2)
